@@ -207,7 +207,7 @@ fn prepare(schemas: &[SchemaJ], name: &str, sc: &SchemaJ, arg: Option<&Sh>, has_
             for kind in ['F', 'R', 'N', 'X', 'U'] {
                 for tolerant in [false, true] {
                     // the placeholder id 0 is replaced once the document (and so "beyond") is known
-                    let mut g2 = Gen { schemas, objs: g.objs.clone(), next_id: g.next_id + 50, model_only: model_known, hist: Default::default(), nesting: 1, indirect_placement: true };
+                    let mut g2 = Gen { schemas, objs: g.objs.clone(), next_id: g.next_id + 50, model_only: model_known, hist: Default::default(), nesting: 1, indirect_placement: true, always_tags: false };
                     let mut r2 = Rng::derive(seed, &format!("c18.plant/{}/{}/{}", name, f.ident, place), variant);
                     let marker = Primitive::Reference(PlainRef { id: u64::MAX, gen: 0 });
                     let value = match place {
@@ -552,7 +552,7 @@ fn tree_oracle(schemas: &[SchemaJ], seed: u64, variants: u64) -> Oracle {
                     for tolerant in [false, true] {
                         let layout = Layout::of_variant(variant + 1);
                         let mut old_rng = Rng::derive(seed, &format!("c18.tree.old/{}/{}", model, f.ident), variant);
-                        let mut g_old = Gen { schemas, objs: g.objs.clone(), next_id: g.next_id + 50, model_only: false, hist: Default::default(), nesting: 1, indirect_placement: true };
+                        let mut g_old = Gen { schemas, objs: g.objs.clone(), next_id: g.next_id + 50, model_only: false, hist: Default::default(), nesting: 1, indirect_placement: true, always_tags: false };
                         let old_value = g_old.value(&mut old_rng, &f.shape, 1).filter(|v| !matches!(v, Primitive::Null));
                         let base_objs = g_old.objs.clone();
                         let mut probe = base_objs.clone();
